@@ -462,7 +462,7 @@ class C11(Plan):
 
 class C12(Plan):
     pid = "C12"
-    corr = ("r-", "st", "sz", "c", "e")
+    corr = ("r-", "st", "sz", "c", "e", "f")
     spec = ("r-", "c", "e")
 
     def gen(self, tier, seed):
@@ -473,6 +473,13 @@ class C12(Plan):
                                               for (o_st, o_sz) in layouts(N)])
         g.one_step(ns, [4], lambda c, N, sz: [["into_iter " + ",".join("n" * (sz + 1))], ["clone_keep", "to_vec"],
                                               ["clone_drop", "as_slices"]])
+        # "destroys the rest exactly once" also when one of those destructors panics
+        small = Ns(tier, [0, 1, 2, 3], [0, 1, 2, 3, 4])
+        for k in range(0, 2 * max(small) + 2):
+            g.one_step([n for n in small if k <= 2 * n + 1], [4],
+                       lambda c, N, sz: ["from_array " + c.es(m) for m in sorted({N + 1, 2 * N + 1})] +
+                                        ["from_iter " + c.es(N + 1), "clone_keep", "clone_drop", "into_iter n"],
+                       fault="drop:%d" % k, suffix=("push_back 9001:5", "new"))
         return g.cases
 
 
